@@ -2,6 +2,8 @@ package props
 
 import (
 	"fmt"
+	"github.com/go-kid/ioc/app"
+	"github.com/go-kid/ioc/configure/loader"
 	"github.com/go-kid/ioc/container/processors"
 	"reflect"
 	"sort"
@@ -21,7 +23,10 @@ func init() {
 			"with two or more Primary candidates, or no Primary and several default-named candidates, any surviving candidate is accepted (the statement only fixes unique winners)",
 			"populations of more than three providers are not covered (thorough: four for family (a) without the optional field)",
 		},
-		Parts: []Part{{Name: "ranking", Run: func(c *core.Ctx) { resolveRun(c, "C08") }, QuickS: 180, ThoroughS: 1500}},
+		Parts: []Part{
+			{Name: "ranking", Run: func(c *core.Ctx) { resolveRun(c, "C08") }, QuickS: 180, ThoroughS: 1500},
+			{Name: "late-qualifier", Run: c08Late, Workers: 1, QuickS: 30, ThoroughS: 30},
+		},
 	})
 }
 
@@ -404,5 +409,94 @@ func resolveRun(c *core.Ctx, prop string) {
 		if c.S.Programs%3000 == 1 {
 			c.Sample(map[string]any{"providers": fmt.Sprint(cs.Pop), "fields": cs.Fields, "orders_run": factorialInt(n), "signature": firstSig})
 		}
+	})
+}
+
+// ---- qualifiers that a provider only has after its own configuration was bound (it is created
+// before the holder): the filter asks the component when the point is resolved
+
+type c8LateA struct {
+	scen.QBase
+	Grp string `value:"${grp.a}"`
+}
+
+func (p *c8LateA) Qualifier() string { return p.Grp }
+
+type c8LateB struct {
+	scen.QBase
+	Grp string `value:"${grp.b}"`
+}
+
+func (p *c8LateB) Qualifier() string { return p.Grp }
+
+type c8LateHolder struct {
+	F scen.IQ   `wire:",qualifier=rw,required=false"`
+	S []scen.IQ `wire:",qualifier=rw,required=false"`
+	T []scen.IQ `wire:",qualifier=ro,required=false"`
+}
+
+func (*c8LateHolder) Naming() string { return "zz-holder" }
+
+type c8LateCase struct {
+	A string `json:"group_of_a"`
+	B string `json:"group_of_b"`
+}
+
+func c08Late(c *core.Ctx) {
+	gen := func(yield func(c8LateCase) bool) {
+		for _, a := range []string{"rw", "ro", "other"} {
+			for _, b := range []string{"rw", "ro", "other"} {
+				if !yield(c8LateCase{a, b}) {
+					return
+				}
+			}
+		}
+	}
+	Cases(c, gen, func(c *core.Ctx, cs c8LateCase) {
+		pa, pb := &c8LateA{QBase: scen.QBase{Id: "x0", Name: "a1"}}, &c8LateB{QBase: scen.QBase{Id: "x1", Name: "a2"}}
+		h := &c8LateHolder{}
+		doc := fmt.Sprintf("grp:\n  a: %s\n  b: %s\n", cs.A, cs.B)
+		o := scen.Start(scen.StartSpec{Ch: envx.Fixed("", nil), Comps: []any{h, pb, pa}, Opts: []app.SettingOption{app.SetConfigLoader(loader.NewRawLoader([]byte(doc)))}})
+		c.S.Evaluations++
+		c.S.Programs++
+		c.S.States++
+		c.S.Nontrivial++
+		c.S.Transitions += int64(o.Trace.Calls)
+		key := "C08/late-qualifier/" + core.Hash(cs)
+		want := func(g string) []string {
+			var out []string
+			if cs.A == g {
+				out = append(out, "x0")
+			}
+			if cs.B == g {
+				out = append(out, "x1")
+			}
+			return out
+		}
+		desc := fmt.Sprintf("providers a1 (qualifier bound from configuration: %s) and a2 (%s), created before the holder", cs.A, cs.B)
+		if !o.OK() {
+			c.Outcome("late/failed")
+			c.Report(key, "ranking", desc+": every point is optional but start-up failed: "+scen.FirstLine(o.Err)+o.Panic+o.Abort, cs)
+			return
+		}
+		gs, gt := scen.IdsOf(h.S), scen.IdsOf(h.T)
+		sort.Strings(gs)
+		sort.Strings(gt)
+		f := scen.IdOf(h.F)
+		okF := len(want("rw")) == 0 && f == "-"
+		for _, w := range want("rw") {
+			okF = okF || f == w
+		}
+		switch {
+		case fmt.Sprint(gs) != fmt.Sprint(want("rw")) || fmt.Sprint(gt) != fmt.Sprint(want("ro")):
+			c.Outcome("late/slices")
+			c.Report(key, "ranking", fmt.Sprintf("%s: slice `qualifier=rw` holds %v (want %v), slice `qualifier=ro` holds %v (want %v)", desc, gs, want("rw"), gt, want("ro")), cs)
+		case !okF:
+			c.Outcome("late/single")
+			c.Report(key, "ranking", fmt.Sprintf("%s: single point `qualifier=rw` holds %s, admissible %v", desc, f, want("rw")), cs)
+		default:
+			c.Outcome("late/ok")
+		}
+		c.Sample(map[string]any{"case": cs})
 	})
 }
